@@ -5,12 +5,14 @@ use crate::log::Violation;
 use std::collections::BTreeMap;
 
 pub mod common;
+pub mod c05;
 pub mod c06;
 pub mod c07;
 pub mod c08;
 pub mod c14;
 pub mod c15;
 pub mod c16;
+pub mod c17;
 pub mod c18;
 pub mod selfcheck;
 
@@ -92,7 +94,7 @@ pub trait Property: Sync + Send {
 }
 
 pub fn all() -> Vec<Box<dyn Property>> {
-    vec![Box::new(selfcheck::SelfCheck), Box::new(c18::C18), Box::new(c14::C14), Box::new(c15::C15), Box::new(c16::C16), Box::new(c08::C08), Box::new(c07::C07), Box::new(c06::C06)]
+    vec![Box::new(selfcheck::SelfCheck), Box::new(c18::C18), Box::new(c14::C14), Box::new(c15::C15), Box::new(c16::C16), Box::new(c08::C08), Box::new(c07::C07), Box::new(c06::C06), Box::new(c17::C17), Box::new(c05::C05)]
 }
 
 pub fn by_id(id: &str) -> Option<Box<dyn Property>> {
